@@ -381,7 +381,7 @@ def approxSub (o : FOps) (f : Fn) (ubErr : Rat) (bps : List Rat) (fuel : Nat) (i
   | (x0, f0) :: _ =>
     match bps[i + 1]? with
     | none => throw .oor          -- `breakpoints_.at(iSubIntv_+1)` throws `std::out_of_range`
-    | some ub => subLoop o f ubErr (i : Int) ub fuel fuel x0 f0 pl
+    | some ub => subLoop o f ubErr (i : Int) ub (min fuel 4096) fuel x0 f0 pl
 
 /-- the `do ApproximateSubinterval(); while (NextSubinterval());` loop, `n` = remaining iterations bound -/
 def subintervals (o : FOps) (f : Fn) (ubErr : Rat) (bps : List Rat) (fuel : Nat) :
